@@ -54,6 +54,8 @@ def run(chk, repo):
     stores(chk, repo, d)
     rounding(chk, repo, d)
     reads(chk, repo, d)
+    from . import c08
+    c08.decoders(chk, repo, "R02.3")
     # a fixed-point value is a 64-bit quantity on every route (shared with
     # C01): format x is 8 bytes for the size tables, for the width a load
     # reports and for the width a store computes in
@@ -459,6 +461,52 @@ def rounding(chk, repo, d):
            "round(v*100000)")
 
 
+def hash_reads(chk, repo, rule):
+    """HashGlobalVarDesc.__get__ on a loaded program, by abstract
+    execution: the cell the kernel hands back (8 bytes) is read as the raw
+    q divided by FIXED_BASE for format x, and by the variable's own format
+    otherwise; the key is the variable's number"""
+    import struct as _struct
+    sym = "ebpfcat.hashmap.HashGlobalVarDesc.__get__"
+    f = repo.func(sym)
+    chk.analysed(sym)
+    dci = repo.cls("ebpfcat.hashmap.HashGlobalVarDesc")
+    bad = []
+    for fmt, raw in (("x", 250000), ("x", -250000), ("x", 99999), ("x", -1),
+                     ("x", 1 << 40), ("I", 70000), ("i", -3), ("q", -5),
+                     ("Q", (1 << 63) + 9), ("B", 200), ("h", -2)):
+        cell = _struct.pack("q" if raw < 1 << 63 else "Q", raw)
+        asked = []
+
+        def lookup(fd, key, size, _c=cell, _a=asked):
+            _a.append((fd, bytes(key), size))
+            return bytearray(_c)
+        me = Obj(dci, {"fmt": fmt, "name": "v", "count": 7})
+        inst = Obj(None, {"loaded": True, "v": Obj(None, {"fd": 5})})
+        try:
+            got = Evaluator(repo, dci.module, dci, funcs={
+                "lookup_elem": ("hook", lookup)}).call_function(
+                f, [me, inst, Opaque("owner")], cls=dci)
+        except (Unknown, Raised) as e:
+            raise AnalysisError(f"{sym}: cannot be evaluated: {e}")
+        if fmt == "x":
+            want = raw / 100000
+            ok = isinstance(got, float) and abs(got - want) <= 1e-12 * max(
+                1, abs(want))
+        else:
+            want = _struct.unpack_from(fmt, cell)[0]
+            ok = got == want and type(got) is int
+        if not ok:
+            bad.append(f"{fmt!r} cell {raw}: reads {got!r}, expected "
+                       f"{want!r}")
+        elif asked != [(5, b"\x07", 8)]:
+            bad.append(f"{fmt!r}: looks up {asked}")
+    chk.ob(rule, sym, "hash map x variable: raw q divided by FIXED_BASE; "
+           "other formats by their own letter (11 cells by abstract "
+           "execution)", not bad, f, "; ".join(bad[:3]) or
+           "same convention as array maps")
+
+
 def reads(chk, repo, d):
     sym = "ebpfcat.arraymap.ArrayGlobalVarDesc.unpack"
     f = repo.func(sym)
@@ -488,11 +536,4 @@ def reads(chk, repo, d):
     ok = len(ifs) == 1 and bool(find("fmt = 'q'", ifs[0].body, mode="stmt"))
     chk.ob("R02.3", sym, "x is written as an 8-byte q", ok, f,
            "struct reads 'x' as a pad byte; the raw value is a q")
-    sym = "ebpfcat.hashmap.HashGlobalVarDesc.__get__"
-    f = repo.func(sym)
-    ifs = [s for s in walk_no_nested(f) if isinstance(s, ast.If)
-           and match("self.fmt == 'x'", s.test) is not None]
-    ok = len(ifs) == 1 and bool(find(
-        "unpack('q', data)[0] / Expression.FIXED_BASE", ifs[0].body))
-    chk.ob("R02.3", sym, "hash map x variable: raw q divided by FIXED_BASE",
-           ok, f, "same convention as array maps")
+    hash_reads(chk, repo, "R02.3")
